@@ -193,3 +193,20 @@ def classify_exits(body, dg, h, is_success_edge):
         elif any(body.dominates(t, x) or t == y for t in nz): out.append((x, y, "timeout"))
         else: out.append((x, y, "other"))
     return out
+
+
+def check_cancel_not_repeated(ctx, rule):
+    """end_stream tells its target to end BEFORE it waits, never from inside the wait loop: the loop runs until the target's id is vacant again -- but a vacant id
+    may be handed to a new stream at once (small MAX_STREAMS), and a cancel repeated by the loop would then end a stream nobody asked to end"""
+    fx = ctx.fx
+    k = SM + "::end_stream::{closure#0}"
+    body = Body(fx.fn(k))
+    cs = [(b, c) for (b, c) in body.calls if (c.get("resolved") or c.get("f")) == SM + "::cancel_stream"]
+    for (b, c) in cs:
+        inl = util.in_loop(body, b)
+        ctx.ob(rule, f"{k}|cancel-not-repeated-by-the-wait-loop", not inl, body.loc(b),
+               "the cancel is issued once, before the wait loop" if not inl else
+               "cancel_stream is called from inside the loop that waits for the id to become vacant: once the target was dropped its id can be re-issued, and the next "
+               "iteration cancels the NEW stream that got the id")
+    if not cs:
+        ctx.ob(rule, f"{k}|cancel-not-repeated-by-the-wait-loop", False, f"{body.f['file']}:{body.f['line']}", "end_stream never cancels its target")
